@@ -6,6 +6,7 @@ CONSTANTS
   TrigSets = {{},{3}}
   MaxNow = 1
   MaxStores = 4
+  Shared = FALSE
 CONSTRAINT Bounded
 INVARIANTS Bound OrderInv HeldNotDead
 PROPERTIES EvictRule OnlyStoreEvicts
